@@ -42,6 +42,8 @@ def pivot():
     S.append(EnumSpec("Sa", [U("DarkBlack"), U("Io2")], serialize_all="SCREAMING_SNAKE_CASE", aci=True, note="serialize_all + case-insensitive", **kw))
     S.append(EnumSpec("Units", [U("Micro", serialize=["\u00b5m"]), U("M", serialize=["m"]), U("Mm", serialize=["mm"])],
                       note="the longest spelling in BYTES is non-ASCII (char count < byte length)", **kw))
+    S.append(EnumSpec("Shared", [U("CmdStart"), U("CmdStop"), U("CmdStatus", serialize=["cmd_status", "cmd_st"])], serialize_all="snake_case",
+                      note="every spelling starts with the same text (namespaced commands) and two end alike", **kw))
     S.append(EnumSpec("Ws", [U("A", serialize=[" a "]), U("B", serialize=["b"])], note="spelling with surrounding whitespace (trimmed input must not match or be reported)", **kw))
     return S
 
